@@ -285,10 +285,12 @@ func runG1(e *env) {
 			e.modify(cur, st)
 			modifies++
 			if cfg.GetEvery > 0 && modifies%cfg.GetEvery == 0 {
-				e.fullGetCheck(propForGet(e), e.sc.Cfg.FullPayl)
+				e.fullGetCheck(propForGet(e), 0)
 			}
 		case "flush":
 			e.flush(st.Flush)
+		case "get":
+			e.checkGet(propForGet(e), st.Get.NI, st.Get.All, spb.AFTType(st.Get.AFT))
 		case "handover":
 			if st.A == 1 && !cur.dead {
 				cur.mc.CloseSend()
@@ -308,7 +310,11 @@ func runG1(e *env) {
 		}
 	}
 	e.step = len(e.sc.Steps)
-	e.fullGetCheck(propForGet(e), true)
+	if cfg.FullPayl {
+		e.fullGetCheck("C07", 2)
+	} else {
+		e.fullGetCheck("C01", 1)
+	}
 	for _, s := range e.sess {
 		if !s.dead && !s.closed {
 			s.mc.CloseSend()
